@@ -451,10 +451,11 @@ impl<'a> Gen<'a> {
         let n = 1 + self.rng.below(max_stmts);
         let mut s = String::new();
         for _ in 0..n {
-            if self.rng.chance(2, 3) {
-                s.push_str(&self.tricky_stmt(""));
-            } else {
-                s.push_str(&self.stmt(""));
+            match self.rng.below(6) {
+                0 | 1 | 2 => s.push_str(&self.tricky_stmt("")),
+                3 => s.push_str(&self.fusion_stmt("")),
+                4 => s.push_str(&self.closure_return_stmt("")),
+                _ => s.push_str(&self.stmt("")),
             }
         }
         match self.rng.below(4) {
@@ -465,5 +466,75 @@ impl<'a> Gen<'a> {
             _ => {}
         }
         s
+    }
+}
+
+/// token-fusion adjacency and one-line closures with `return` of 0/2/3 values (families added after two
+/// independently seeded changes were missed)
+impl<'a> Gen<'a> {
+    /// a key / operand whose LEFTMOST token is a long-bracket string, possibly inside a compound expression
+    fn long_bracket_led_expr(&mut self) -> String {
+        let b = self.name();
+        let ls = *self.rng.pick(&["[[a]]", "[=[a]=]", "[==[ x ]] y ]==]", "[[a\nb]]"]);
+        match self.rng.below(9) {
+            0 => ls.to_string(),
+            1 => format!("{ls} .. {b}"),
+            2 => format!("{ls} == {b}"),
+            3 => format!("({ls}):len()"),
+            4 => format!("{ls} .. [[b]]"),
+            5 => format!("{ls} .. {b} .. [=[c]=]"),
+            6 => format!("{ls} < {b} and {b}"),
+            7 => format!("#{ls}"),
+            _ => format!("{ls} .. {b}[ {ls} ]"),
+        }
+    }
+
+    pub fn fusion_stmt(&mut self, ind: &str) -> String {
+        let (a, b) = (self.name(), self.name());
+        let k = self.long_bracket_led_expr();
+        match self.rng.below(12) {
+            0 => format!("{ind}{a}[ {k} ] = {b}\n"),
+            1 => format!("{ind}local {a} = {b}[ {k} ]\n"),
+            2 => format!("{ind}{a} = {{ [ {k} ] = 1, [ {} ] = 2, {b} }}\n", self.long_bracket_led_expr()),
+            3 => format!("{ind}{a}({b}[ {k} ], {{ [ {k} ] = {b} }})\n"),
+            4 => format!("{ind}{a}.x[ {k} ][ {k} ] = {b}:y()[ {k} ]\n"),
+            5 => format!("{ind}{a} = {b} - -{a} - - -1 .. 2 .. .5 .. 1.5 .. {b}\n"),
+            6 if self.std53 => format!("{ind}local {a} <const> = 1\n{ind}local {b} <close>, {a}2 <const> = nil, {k}\n"),
+            7 => format!("{ind}do\n{ind}  goto {a}_x\n{ind}  ::{a}_x:: ::{b}_y::\n{ind}end\n"),
+            8 => format!("{ind}{a} {}\n{ind}{b}.x {}\n", self.rng.pick(&["[[s]]", "[=[s]=]"]), self.rng.pick(&["[[t]]", "[==[ u ]==]"])),
+            9 => format!("{ind}{a}[ {b} {k} ] = {b}\n"),
+            10 => format!("{ind}do\n{ind}  return {a}[ {k} ], - -{b}, 3 .. {a}\n{ind}end\n"),
+            _ => format!("{ind}{a} = {b} .. ... .. 0x1 .. {a}.x .. {b}\n"),
+        }
+    }
+
+    /// a one-line closure whose body is a `return` with 0, 1, 2 or 3 values / a call / varargs
+    fn return_closure(&mut self) -> String {
+        let (a, b) = (self.name(), self.name());
+        match self.rng.below(8) {
+            0 => "function() return end".to_string(),
+            1 => format!("function() return {a}, {b} end"),
+            2 => format!("function({a}) return {a}, {b}, 1 end"),
+            3 => format!("function() return {a}() end"),
+            4 => "function(...) return ... end".to_string(),
+            5 => format!("function() return {a} end"),
+            6 => format!("function() return {a}, {b}() end"),
+            _ => format!("function({a}, {b}) return {b}, {a} end"),
+        }
+    }
+
+    pub fn closure_return_stmt(&mut self, ind: &str) -> String {
+        let (a, b) = (self.name(), self.name());
+        let (c1, c2) = (self.return_closure(), self.return_closure());
+        match self.rng.below(8) {
+            0 => format!("{ind}{a}({b}, {c1})\n"),
+            1 => format!("{ind}{a}({c1}, {b})\n"),
+            2 => format!("{ind}{a}({b}, {c1}, {c2})\n"),
+            3 => format!("{ind}{a}({c1})\n"),
+            4 => format!("{ind}{a}({{ k = {c1}, 1 }}, {b})\n"),
+            5 => format!("{ind}local {a} = {b}({a}, {{ {c1}, {c2} }}, {c1})\n"),
+            6 => format!("{ind}{a}:m({b}, {c1}):n({c2}, {b})\n"),
+            _ => format!("{ind}{a}({b}({c1}, {c2}), {b})\n"),
+        }
     }
 }
